@@ -224,7 +224,11 @@ type B<E> = <E as FieldElement>::BaseField;
 #[derive(Clone, Copy)]
 pub struct V<E> {
     e: E,
+    /// reporting only: operation that first produced an out-of-range internal representation
     taint: Option<&'static str>,
+    /// reporting only (f64 extensions): derived from an extension operation one of whose internal
+    /// base products has its Montgomery form in the `double` band [ceil(p/2), 2^63)
+    band: bool,
 }
 
 pub struct Ctx<E: Elem>
@@ -243,6 +247,8 @@ where
     /// calls of exactly that class are skipped (and counted) so that one known defect cannot cost
     /// minutes of watchdog time
     skip_zero_m: bool,
+    /// quick tier: fewer / shorter square-and-multiply chains (TLC cost is ~30 ms per link)
+    quick: bool,
     _e: std::marker::PhantomData<E>,
 }
 
@@ -274,6 +280,7 @@ where
             rng: Rng::new(seed, combo, 0),
             dir: None,
             skip_zero_m: false,
+            quick: true,
             _e: std::marker::PhantomData,
         }
     }
@@ -335,7 +342,80 @@ where
         } else {
             None
         };
-        V { e, taint }
+        V { e, taint, band: false }
+    }
+    // -- "double band" footprint of f64 extension operations (reporting only) -----------------------
+    // The f64 ExtensibleField formulas call double() on products (and sums of two products) of operand
+    // coordinates.  To attribute a rejected extension event to the known f64::double defect, the
+    // recorder checks with the public base-field API whether such a product lands in the band.
+    fn in_band(&self, b: &B<E>) -> bool {
+        let raw = Big::from_le_bytes(b.as_bytes());
+        let half = self.fb.p.add(&Big::one()).shr(1);
+        raw.ge(&half) && raw.lt(&Big::pow2(63))
+    }
+    fn fp_mul(&self, a: &E, b: &E) -> bool {
+        let (ac, bc) = (Self::coords_b(a), Self::coords_b(b));
+        let mut prods = vec![];
+        for x in &ac {
+            for y in &bc {
+                prods.push(*x * *y);
+            }
+        }
+        for (i, x) in prods.iter().enumerate() {
+            if self.in_band(x) {
+                return true;
+            }
+            for y in &prods[i + 1..] {
+                if self.in_band(&(*x + *y)) {
+                    return true;
+                }
+            }
+        }
+        false
+    }
+    /// mirrors the public decomposition of composite operations into extension products
+    fn footprint(&self, op: &str, a: &E, b: Option<&E>, e: Option<&Big>) -> bool {
+        if self.fs.name != "f64" || E::D == 1 {
+            return false;
+        }
+        let r = catch(|| match op {
+            "mul" => self.fp_mul(a, b.unwrap()),
+            "square" => self.fp_mul(a, a),
+            "cube" => self.fp_mul(a, a) || self.fp_mul(&(*a * *a), a),
+            "inv" | "div" => {
+                let x = if op == "inv" { *a } else { *b.unwrap() };
+                let c1 = x.conjugate();
+                let (num, f1) = if E::D == 3 {
+                    let c2 = c1.conjugate();
+                    (c1 * c2, self.fp_mul(&c1, &c2))
+                } else {
+                    (c1, false)
+                };
+                f1 || self.fp_mul(&x, &num) || (op == "div" && self.fp_mul(a, &x.inv()))
+            },
+            "exp" => {
+                let e = e.unwrap();
+                let (mut r, mut bb) = (E::ONE, *a);
+                let mut hit = false;
+                for i in 0..e.bits() {
+                    if e.bit(i) {
+                        hit |= self.fp_mul(&r, &bb);
+                        r *= bb;
+                    }
+                    hit |= self.fp_mul(&bb, &bb);
+                    bb = bb.square();
+                }
+                hit
+            },
+            _ => false,
+        });
+        r.unwrap_or(false)
+    }
+    fn mark_band(&mut self, m: &mut Map<String, Value>, r: &mut V<E>, fp: bool, ins: &[bool]) {
+        if fp || ins.iter().any(|x| *x) {
+            r.band = true;
+            m.entry("dir").or_insert(json!("f64-double-band"));
+        }
     }
     fn canon(e: &E) -> E {
         let c: Vec<B<E>> = Self::coords(e).iter().map(|x| <B<E>>::new_big(x)).collect();
@@ -471,7 +551,9 @@ where
             "conj" | "conj_chain" => self.call(&mut m, move || x.conjugate())?,
             _ => unreachable!(),
         };
-        let r = self.wrap(e, op, &[a.taint]);
+        let mut r = self.wrap(e, op, &[a.taint]);
+        let fp = self.footprint(op, &a.e, None, None);
+        self.mark_band(&mut m, &mut r, fp, &[a.band]);
         let (ac, rc) = (Self::coords(&a.e), Self::coords(&e));
         let fs = self.fs.clone();
         let h = match op {
@@ -545,7 +627,9 @@ where
             })?,
             _ => unreachable!(),
         };
-        let r = self.wrap(e, op, &[a.taint, b.taint]);
+        let mut r = self.wrap(e, op, &[a.taint, b.taint]);
+        let fp = self.footprint(op, &a.e, Some(&b.e), None);
+        self.mark_band(&mut m, &mut r, fp, &[a.band, b.band]);
         let (ac, bc, rc) = (Self::coords(&a.e), Self::coords(&b.e), Self::coords(&e));
         let h = match op {
             "mul" => Some(self.fs.mul_hints(&ac, &bc, &rc)),
@@ -568,7 +652,8 @@ where
         self.put_base(&mut m, "b", &b);
         let x = a.e;
         let e = self.call(&mut m, move || x.mul_base(b))?;
-        let r = self.wrap(e, "mul_base", &[a.taint]);
+        let mut r = self.wrap(e, "mul_base", &[a.taint]);
+        self.mark_band(&mut m, &mut r, false, &[a.band]);
         let h = self.fs.mul_base_hints(&Self::coords(&a.e), &b.int_big(), &Self::coords(&e));
         self.finish(m, &r, Some(h));
         Some(r)
@@ -583,7 +668,9 @@ where
         let alt = self.rng.below(3) == 0;
         m.insert("alt".into(), json!(alt as u8));
         let res = if alt { self.call(&mut m, move || x.exp_vartime(pw))? } else { self.call(&mut m, move || x.exp(pw))? };
-        let r = self.wrap(res, "exp", &[a.taint]);
+        let mut r = self.wrap(res, "exp", &[a.taint]);
+        let fp = self.footprint("exp", &a.e, None, Some(e));
+        self.mark_band(&mut m, &mut r, fp, &[a.band]);
         let (chain, _) = self.fs.exp_chain(&Self::coords(&a.e), e);
         m.insert("chain".into(), chain);
         self.finish(m, &r, None);
@@ -594,6 +681,9 @@ where
         let mut m = self.head("eq");
         self.put(&mut m, "a", &a);
         self.put(&mut m, "b", &b);
+        if a.band || b.band {
+            m.entry("dir").or_insert(json!("f64-double-band"));
+        }
         let (x, y) = (a.e, b.e);
         let alt = self.rng.below(4) == 0;
         let r = if alt { self.call(&mut m, move || !(x != y))? } else { self.call(&mut m, move || x == y)? };
@@ -603,7 +693,7 @@ where
     }
     /// result == canonical re-creation of itself (must be TRUE: same canonical value)
     fn eq_canon(&mut self, a: V<E>) -> Option<bool> {
-        let c = V { e: Self::canon(&a.e), taint: None };
+        let c = V { e: Self::canon(&a.e), taint: None, band: a.band };
         if self.rng.below(2) == 0 {
             self.eq(a, c)
         } else {
@@ -911,8 +1001,19 @@ where
     fn dir_exp(&mut self) -> Option<()> {
         let a = self.gen_elem()?;
         let p = self.fb.p.clone();
-        let full = self.rng.big_bits(<B<E>>::POW_BITS);
-        for e in [Big::zero(), Big::one(), Big::from_u64(2), p.sub(&Big::one()), p.sub(&Big::from_u64(2)), full] {
+        let pb = <B<E>>::POW_BITS;
+        let mut exps = vec![Big::zero(), Big::one(), Big::from_u64(2), p.sub(&Big::one())];
+        let cheap = E::D == 1 && pb == 64;
+        if !self.quick || cheap {
+            exps.push(p.sub(&Big::from_u64(2)));
+        }
+        if !self.quick || E::D < 3 {
+            // full-width random exponent (quick tier: 64 bits for the 128-bit quadratic extension)
+            let bits = if self.quick && E::D == 2 && pb == 128 { 64 } else { pb };
+            exps.push(self.rng.big_bits(bits));
+        }
+        exps.push(self.rng.big_bits(20));
+        for e in exps {
             let r = self.exp(a, &e)?;
             self.eq_canon(r)?;
         }
@@ -1078,7 +1179,7 @@ where
                 ("f64", 12..=17) if E::D == 1 => self.dir_f64_mul_small(sc - 12),
                 ("f62", 0..=3) => self.dir_f62_zero(sc),
                 (_, 18) => self.dir_exp(),
-                (_, 19) if E::D > 1 => self.sc_frob(),
+                (_, 19) if E::D > 1 && !(self.quick && (E::D == 3 || self.fs.name == "f128")) => self.sc_frob(),
                 (_, 20..=23) => self.sc_zero(sc),
                 _ => self.sc_pair(),
             }
@@ -1101,11 +1202,12 @@ pub const N_DIRECTED: u64 = 24;
 pub const COMBOS: [(&str, usize); 8] =
     [("f64", 1), ("f64", 2), ("f64", 3), ("f62", 1), ("f62", 2), ("f62", 3), ("f128", 1), ("f128", 2)];
 
-fn run_combo<E: Elem>(seed: u64, combo: u64, from: u64, to: u64, skip: bool)
+fn run_combo<E: Elem>(seed: u64, combo: u64, from: u64, to: u64, skip: bool, quick: bool)
 where
     B<E>: Base,
 {
     let mut ctx = Ctx::<E>::new(seed, combo);
+    ctx.quick = quick;
     ctx.skip_zero_m = skip;
     for sc in from..to {
         ctx.scenario(seed, combo, sc);
@@ -1131,22 +1233,23 @@ pub fn frobcert_events() -> Vec<Value> {
     out
 }
 
-/// `record-child <seed> <combo> <from> <to> [skip]`
+/// `record-child <seed> <combo> <from> <to> [skip] [tier]`
 pub fn child_main(args: &[String]) -> i32 {
     let seed: u64 = args[0].parse().unwrap();
     let combo: u64 = args[1].parse().unwrap();
     let from: u64 = args[2].parse().unwrap();
     let to: u64 = args[3].parse().unwrap();
     let skip = args.get(4).map(|s| s == "1").unwrap_or(false);
+    let quick = args.get(5).map(|s| s != "thorough").unwrap_or(true);
     match combo {
-        0 => run_combo::<f64::BaseElement>(seed, combo, from, to, skip),
-        1 => run_combo::<QuadExtension<f64::BaseElement>>(seed, combo, from, to, skip),
-        2 => run_combo::<CubeExtension<f64::BaseElement>>(seed, combo, from, to, skip),
-        3 => run_combo::<f62::BaseElement>(seed, combo, from, to, skip),
-        4 => run_combo::<QuadExtension<f62::BaseElement>>(seed, combo, from, to, skip),
-        5 => run_combo::<CubeExtension<f62::BaseElement>>(seed, combo, from, to, skip),
-        6 => run_combo::<f128::BaseElement>(seed, combo, from, to, skip),
-        7 => run_combo::<QuadExtension<f128::BaseElement>>(seed, combo, from, to, skip),
+        0 => run_combo::<f64::BaseElement>(seed, combo, from, to, skip, quick),
+        1 => run_combo::<QuadExtension<f64::BaseElement>>(seed, combo, from, to, skip, quick),
+        2 => run_combo::<CubeExtension<f64::BaseElement>>(seed, combo, from, to, skip, quick),
+        3 => run_combo::<f62::BaseElement>(seed, combo, from, to, skip, quick),
+        4 => run_combo::<QuadExtension<f62::BaseElement>>(seed, combo, from, to, skip, quick),
+        5 => run_combo::<CubeExtension<f62::BaseElement>>(seed, combo, from, to, skip, quick),
+        6 => run_combo::<f128::BaseElement>(seed, combo, from, to, skip, quick),
+        7 => run_combo::<QuadExtension<f128::BaseElement>>(seed, combo, from, to, skip, quick),
         _ => return 2,
     }
     println!("{{\"done\":true}}");
